@@ -42,22 +42,32 @@ Fixpoint get_contracts (body : list tstmt) : list cexpr :=
 Inductive contract := KPure | KSafe | KHas (markers : list string) | KRaises | KOtherContract.
 Inductive cres := CSome (c : contract) | CNone | CCrash.    (* CCrash: _exec_contract itself raises AttributeError *)
 Definition deal_names : list string := ["pure"; "safe"; "has"; "raises"; "pre"; "post"; "ensure"; "reason"; "inv"; "chain"].
-Fixpoint exec_contract (e : cexpr) : cres :=
+(* DealLoader._get_deal_attr: the attribute of the deal package a node names *)
+Definition deal_attr (e : cexpr) : cres :=
   match e with
-  | CCall f lit kw markers =>
-      if kw then CNone else if negb lit then CNone else
-      match exec_contract f with
-      | CSome (KHas _) => CSome (KHas markers)
-      | CSome c => CSome c
-      | r => r
-      end
   | CAttr base attr =>
       if negb (String.eqb base "deal") then CNone
       else if String.eqb attr "pure" then CSome KPure else if String.eqb attr "safe" then CSome KSafe
       else if String.eqb attr "has" then CSome (KHas []) else if String.eqb attr "raises" then CSome KRaises
       else if existsb (String.eqb attr) deal_names then CSome KOtherContract else CNone
   | CNested => CCrash
-  | COther => CNone
+  | _ => CNone
+  end.
+(* DealLoader._exec_contract: a call (no keywords, literal arguments) of a deal attribute; without a call only deal.pure / deal.safe *)
+Definition exec_contract (e : cexpr) : cres :=
+  match e with
+  | CCall f lit kw markers =>
+      if kw then CNone else if negb lit then CNone else
+      match deal_attr f with
+      | CSome (KHas _) => CSome (KHas markers)
+      | r => r
+      end
+  | _ => match deal_attr e with
+         | CSome KPure => CSome KPure
+         | CSome KSafe => CSome KSafe
+         | CSome _ => CNone
+         | r => r
+         end
   end.
 
 Inductive ires := IOk | IExc (c : string).
